@@ -209,6 +209,27 @@ fn api_func(name: &str, args: &[SimpleExpr]) -> Option<FunctionCall> {
         "least" => Some(Func::least(args.to_vec())),
         "coalesce" => Some(Func::coalesce(args.to_vec())),
         "random" if args.is_empty() => Some(Func::random()),
+        // Postgres full-text constructors: (expr, Option<regconfig>) - the configuration comes first in the call
+        "pg0" | "pg1" | "pg2" | "pg3" | "pg4" => {
+            let (e, cfg) = match args {
+                [e] => (e.clone(), None),
+                [SimpleExpr::Value(Value::Unsigned(Some(c))), e] => (e.clone(), Some(*c)),
+                _ => return None,
+            };
+            Some(match name {
+                "pg0" => PgFunc::to_tsquery(e, cfg),
+                "pg1" => PgFunc::to_tsvector(e, cfg),
+                "pg2" => PgFunc::phraseto_tsquery(e, cfg),
+                "pg3" => PgFunc::plainto_tsquery(e, cfg),
+                _ => PgFunc::websearch_to_tsquery(e, cfg),
+            })
+        }
+        "pg5" if args.len() == 2 => Some(PgFunc::ts_rank(args[0].clone(), args[1].clone())),
+        "pg6" if args.len() == 2 => Some(PgFunc::ts_rank_cd(args[0].clone(), args[1].clone())),
+        "pg7" if args.len() == 2 => Some(PgFunc::starts_with(args[0].clone(), args[1].clone())),
+        "pg8" if args.is_empty() => Some(PgFunc::gen_random_uuid()),
+        "pg10" if args.len() == 1 => Some(PgFunc::json_agg(args[0].clone())),
+        "pg11" if args.len() == 1 => Some(PgFunc::array_agg(args[0].clone())),
         _ => None,
     }
 }
